@@ -65,6 +65,21 @@ pub fn cone_case(out: &mut Out, rng: &mut Rng, c: &ConeIn, prop: &str) {
     Some(m) => { out.rec(&req, &bmoc_line(&m)); m }
   };
   if let Err(e) = wf_raw(m.get_depth_max(), &m.entries) { out.violation(&format!("{}:not-wf", prop), inp, "well-formed BMOC".into(), e); return; }
+  // the flat variant (same query, cells of the requested depth in increasing order): every entry expanded to its
+  // descendants at the requested depth, computed here independently of BMOC::to_flat_array
+  if prop == "C05" && c.dd == 0 {
+    let dm = m.get_depth_max();
+    let mut want: Vec<u64> = Vec::new();
+    let mut small = true;
+    for e in m.entries.iter() {
+      if let Some((d, h, _)) = decode_raw(*e, dm) { let sh = 2 * (dm - d) as u32; if want.len() as u64 + (1u64 << sh) > 50_000 { small = false; break; } for k in 0..(1u64 << sh) { want.push((h << sh) | k); } }
+    }
+    if small {
+      let flat = catch(|| cdshealpix::nested::cone_coverage_approx_flat(c.depth, c.lon, c.lat, c.r).to_vec());
+      out.stat("C05:flat-variant");
+      if flat.as_ref() != Some(&want) { out.violation("C05:flat-variant", inp.clone(), format!("{} cells: the entries of cone_coverage_approx expanded to the requested depth", want.len()), match &flat { None => "panic".into(), Some(v) => format!("{} cells, first difference at index {:?}", v.len(), v.iter().zip(want.iter()).position(|(a, b)| a != b)) }); }
+    }
+  }
   let cover = Cover::new(&m).unwrap();
   let centre = (c.lon, c.lat);
   if prop == "C05" {
